@@ -21,6 +21,7 @@ import Driver.GenStatus
 import Driver.Lifecycle
 import Driver.Collection
 import Driver.Roots
+import Driver.BLSAgg
 import Driver.SMTImpl
 import Driver.CodecNFC
 
@@ -50,6 +51,7 @@ def main (args : List String) : IO UInt32 := do
   | ["C18LIFE"] => Driver.Lifecycle.main; return 0
   | ["LIBCOLL"] => Driver.Collection.main; return 0
   | ["ROOTS"] => Driver.Roots.main; return 0
+  | ["C06BLS"] => Driver.BLSAgg.main; return 0
   | ["C10IMPL"] => Driver.SMTImpl.main; return 0
   | ["C08NFC"] => Driver.CodecNFC.main; return 0
   | ["C17"] => Driver.ReqResp.main; return 0
